@@ -50,6 +50,7 @@ class Unit:
             if why:
                 ctx.not_verified_by_verus.add('%s: %s' % (p.name, why))
                 continue
+            self._cur_items = items[p.name]
             try:
                 pre, plan, consts, lemmas = self.gen(ctx, p)
                 asm = assemble.assemble_program(p, items[p.name], plan, consts)
